@@ -5,6 +5,7 @@ Oracle: after the run every recipient of the accepted message was either accepte
 bounce handed to the bounce queue (if the sender is non-empty), and the message has left storage; nobody is both.
 """
 import os
+import re
 import time
 import stat
 import shutil
@@ -194,6 +195,14 @@ def run_case(case):
         for b in bounces.items:
             flat = b''.join(b.flatten())
             head = flat.split(b'Content-Type: message/', 1)[0]
+            if kind in ('smtp', 'lmtp'):
+                # C13: a bounce quotes the reply its recipients failed with (the scripted peer words every reply after its stage)
+                quoted = set(int(x) for x in re.findall(br'stage RCPT(\d)', head))
+                named = set(i for i, r in enumerate(rcpts) if r.encode() in head)
+                if quoted and not named <= quoted and len(quoted) == 1:
+                    out.append(('C13:relay-kind-bounce-quotes-another-reply:%s' % kind,
+                                '%s: one bounce names recipients %r but quotes only the reply given to recipient %r'
+                                % (desc, sorted(named), sorted(quoted))))
             if b.sender != '' or list(b.recipients) != [sender]:
                 out.append(('C01:relay-kind-bounce-addressing:%s' % kind, '%s: %r -> %r' % (desc, b.sender, b.recipients)))
             for r in rcpts:
